@@ -29,6 +29,23 @@ PROPS = {
     },
 }
 
+W_NOTE = 'trusted: the simulated network, the independent wiretap decoder, the Go runtime overlay and synctest fake clock; real code: quic, internal/*, uTLS, simnet.SimConn; stub: UDP network, clock, randomness, certificates; samples schedules, not exhaustive except the stated sweeps'
+W_TECH = 'deterministic simulation with fault injection (whole-connection world simulation, seeded fault schedules, wiretap + API oracles)'
+
+PROPS['C01'] = {
+    'level': 'exploration',
+    'budget': {'quick': 75, 'thorough': 1500},
+    'parts': [{'sim': 'transfer', 'share': 3, 'env': {'VERIF_ORACLES': 'C01'}},
+              {'sim': 'transfer', 'mode': 'sweep', 'share': 1, 'env': {'VERIF_ORACLES': 'C01'}}],
+    'rule': 'seeded scenarios (client kind, version, CID lengths, windows, 1-40 streams with random chunkings, datagrams) x per-datagram fault schedules '
+            '(drop/dup/delay/corrupt/trunc, outages, MTU black holes) drawn from the seed; plus a bounded sweep of single and paired faults over the first datagrams; '
+            'non-trivial = at least one fault fired; distinct = distinct abstract wire traces (direction, packet types, frame kinds, fate per datagram)',
+    'real_vs_stub': 'real: quic client (Transport/UTransport) + server + uTLS; stub: network (simulator router), clock (synctest), randomness (seeded), certificates',
+    'assumptions': ['liveness is judged only when the run provably was not starved by the injected faults'],
+    'level_text': 'seeded search over whole-connection executions under network fault schedules, data oracle at every Read, liveness after faults stop; bounded fault sweep on the first datagrams',
+    'level_note': W_NOTE, 'technique': W_TECH,
+}
+
 NOT_APPLICABLE = {
     'C08': 'pure functions of a byte string / value (quantifier: inputs only): no schedule, clock, fault or interleaving for a simulator to control; deciding it is input generation (fuzzing), a different technique - DESIGN.md section 5',
     'C19': 'predicate over field lists and http.Header values (quantifier: inputs only): no schedule, clock, fault or interleaving - DESIGN.md section 5',
